@@ -1058,10 +1058,12 @@ class AnyEtreeNodeProperty(_ElementBase):
                 raise ValueError(f'mandatory value {self._sub_element_name} missing')  # noqa: EM102
         else:
             sub_node = self._get_element_by_child_name(node, self._sub_element_name, create_missing_nodes=True)
+            # add copies: an lxml element has one parent only, adding the elements themselves would move them out
+            # of the tree they were read from (or were written to before)
             if isinstance(py_value, etree._Element):  # noqa: SLF001
-                sub_node.append(py_value)
+                sub_node.append(xml_utils.copy_node_wo_parent(py_value))
             else:
-                sub_node.extend(py_value)
+                sub_node.extend(xml_utils.copy_node_wo_parent(x) for x in py_value)
 
 
 class SubElementProperty(_ElementBase):
@@ -1446,7 +1448,9 @@ class AnyEtreeNodeListProperty(_ElementListProperty):
             return
 
         sub_node = self._get_element_by_child_name(node, self._sub_element_name, create_missing_nodes=True)
-        sub_node.extend(py_value)
+        # add copies: an lxml element has one parent only, adding the elements themselves would move them out of
+        # the tree they were read from (or were written to before)
+        sub_node.extend(xml_utils.copy_node_wo_parent(x) for x in py_value)
 
     def __str__(self) -> str:
         return f'{self.__class__.__name__} in sub-element {self._sub_element_name}'
